@@ -481,22 +481,25 @@ class PosPriorityQueue(Generic[T]):
         priority of objects which have been waiting for a long time."""
         if not self.priority_boost_factor:
             return  # pragma: no cover
-        pri, _ = self._pq.peekitem()
-        min_pri = max_pri = pri.priority()
+        # the priority range of the regular entries.  Positional entries (class 0)
+        # are not part of it: their priority value only encodes their position.
+        min_pri: Optional[float] = None
+        max_pri: Optional[float] = None
         stragglers = []
         limit = self.n_inserted - len(self._pq)
         for pri, obj in self._pq.items():
             if pri.priority_class == 0:
                 continue
             base_pri = pri.priority()
-            min_pri = min(min_pri, base_pri)
-            max_pri = max(max_pri, base_pri)
+            min_pri = base_pri if min_pri is None else min(min_pri, base_pri)
+            max_pri = base_pri if max_pri is None else max(max_pri, base_pri)
             # we dermine long-waiting objects to be those inserted more than
             # queue len ago.
             if pri.inserted_at < limit:
                 stragglers.append((pri, obj))
 
         if stragglers:
+            assert min_pri is not None and max_pri is not None
             self.boost_stragglers(stragglers, min_pri, max_pri)
 
     def boost_stragglers(
